@@ -1168,4 +1168,8 @@ class FortranBackend(BaseBackend):
     def _var_to_str(y: ComputeVar) -> str:
         if y.is_complex:
             return f"({np.real(y.value)}, {np.imag(y.value)})"
+        if y.is_float and np.size(y.value) == 1 and np.isfinite(y.value):
+            # a Fortran literal without kind suffix is single precision: write the value as a double-precision literal
+            s = repr(float(y.value))
+            return s.replace("e", "d") if "e" in s else f"{s}d0"
         return f"{y.value}"
